@@ -469,6 +469,36 @@ func leafIs(info *types.Info, scope ast.Node, e ast.Expr, pred func(ast.Expr) bo
 // ---------------------------------------------------------------------------
 // R2 offset provenance
 
+// offsetOfDequeuedItem: e is a variable of the enclosing function that is
+// assigned `<item>.Offset` with <item> the value received from the queue.
+func offsetOfDequeuedItem(info *types.Info, s *c03.Sender, e ast.Expr) ast.Node {
+	id, ok := ast.Unparen(e).(*ast.Ident)
+	if !ok || s.Item == nil {
+		return nil
+	}
+	obj := core.ObjOf(info, id)
+	var hit ast.Node
+	ast.Inspect(s.Fn.Decl.Body, func(n ast.Node) bool {
+		as, ok := n.(*ast.AssignStmt)
+		if !ok || len(as.Lhs) != len(as.Rhs) {
+			return true
+		}
+		for i, l := range as.Lhs {
+			lid, ok := l.(*ast.Ident)
+			if !ok || core.ObjOf(info, lid) != obj {
+				continue
+			}
+			if sel, ok := ast.Unparen(as.Rhs[i]).(*ast.SelectorExpr); ok && sel.Sel.Name == "Offset" {
+				if xid, ok := ast.Unparen(sel.X).(*ast.Ident); ok && core.ObjOf(info, xid) == s.Item {
+					hit = as
+				}
+			}
+		}
+		return true
+	})
+	return hit
+}
+
 func r2(c *core.Ctx, s *c03.Sender, p *c03.Parser, e *envelope) {
 	const rule = "R2.offset"
 	if s != nil && e != nil {
@@ -489,6 +519,8 @@ func r2(c *core.Ctx, s *c03.Sender, p *c03.Parser, e *envelope) {
 			if !ok || sel.Sel.Name != "Offset" || core.NamedTypeName(info.TypeOf(sel.X)) != c03.CmdType {
 				if core.MentionsField(info, defs[0].Expr, c03.Syncer, "sourceOffset") {
 					c.Failf(rule, key, defs[0].Expr.Pos(), "the checkpoint stores `%s`, the live replication position, not the offset of the last command of this batch: commands parsed but not yet in the batch are skipped on resume", c.Src(defs[0].Expr))
+				} else if fromItem := offsetOfDequeuedItem(info, s, defs[0].Expr); fromItem != nil {
+					c.Failf(rule, key, fromItem.Pos(), "the checkpoint stores `%s`, which is set from the item most recently taken from the queue (`%s`), not from the last command of the batch being sent: when a barrier command (SELECT/MULTI/EXEC) forces the flush, that item is not in the batch yet, so the stored offset lies beyond what was applied and the barrier command is lost on resume", c.Src(defs[0].Expr), c.Src(fromItem))
 				} else {
 					c.Undecidedf(rule, key, e.offCall.Pos(), "the stored offset is `%s`, not the Offset field of a batch element", c.Src(defs[0].Expr))
 				}
